@@ -73,6 +73,7 @@ def main():
                "that the recursive substitute() combines, of which the statement promises nothing (the four documented rules are "
                "judged), C08-24 offers one harmonic substitute for VI instead of two (the statement speaks of what the returned ones "
                "share with the original), C09-23 changes the analysis of a septuplet perturbed upward (outside the 1 %% clause), "
+               "C08-26 offers no substitute for an m7 chord on degrees other than II/III/VI (again: what is returned is still right), "
                "see 0.3b), so "
                "the report names the theorems that no longer check, as the brief prescribes." % (
                    n_rounds, 2 * n_rounds - 1, 2 * n_rounds, n_all - len(missed), n_all, n_conc, "" if not missed else "; not reported: " + ", ".join(missed) +
